@@ -19,7 +19,7 @@ ID = "C08"
 LEVEL = "exploration"
 TECHNIQUE = ("runtime monitor: generated meminfo/vmstat/zoneinfo under the real virtual_memory()/swap_memory(), "
              "independent integer reference of the documented formulas")
-RULE = ("one case = one generated (meminfo, zoneinfo|absent, vmstat|absent) triple. Exhaustive part: every subset of "
+RULE = ("one case = one generated (meminfo, zoneinfo|absent, vmstat|absent) triple (zoneinfo of 0-24 zones, i.e. one to four NUMA nodes whose zone names repeat). Exhaustive part: every subset of "
         "the 10 optional meminfo keys x zoneinfo present/absent with one in-range magnitude profile; random part: "
         "random subsets (plus legacy 2.4/2.6 key names, swap keys present/absent) with magnitudes zero / small / "
         "typical / TB / container-distorted (cached+buffers > total, available > total, available = 0, total = 0, "
